@@ -1,6 +1,7 @@
 import DriverLib.Store
 import QV.Model.PhaseAux
-open Lean Drv QV QV.PhaseAux
+import QV.Model.Optim
+open Lean Drv QV QV.PhaseAux QV.Optim
 
 namespace Drv.C20
 
@@ -49,11 +50,78 @@ def auxgrad (j : Json) : R Json := do
   return Json.mkObj [("ph_re", fOut g0.1), ("ph_im", fOut g0.2), ("rotated", fOut r),
     ("batch", fOut (batchGradAux [r, 0.0] batch))]
 
+def fOr (j : Json) (k : String) (dflt : Float) : R Float :=
+  match fldOpt j k with
+  | none => .ok dflt
+  | some v => jFloat v
+
+def bOr (j : Json) (k : String) : R Bool :=
+  match fldOpt j k with
+  | none => .ok false
+  | some v => jBool v
+
+/-- op `c20.rule`: one scalar coordinate under one of the torch rules of `QV.Model.Optim`, with a learning rate that may
+change from step to step (a scheduler).  in: kind, p0, grads, lrs (one learning rate per step), hyper-parameters
+(bit patterns; missing = torch default is supplied by the harness), flags.  out: `Rule.trace` (parameter after every step). -/
+def rule (j : Json) : R Json := do
+  let kind ← jStr (← fld j "kind")
+  let p0 ← jFloat (← fld j "p0")
+  let gs ← jFloatArr (← fld j "grads")
+  let lrs ← jFloatArr (← fld j "lrs")
+  if lrs.size != gs.size then throw "lrs/grads: different lengths"
+  let wd ← fOr j "wd" 0.0
+  let eps ← fOr j "eps" 0.0
+  let maxi ← bOr j "maximize"
+  let steps : List (Float × Float) := (lrs.toList.zip gs.toList)
+  match kind with
+  | "sgd" =>
+    let mom ← fOr j "momentum" 0.0
+    let damp ← fOr j "dampening" 0.0
+    let nest ← bOr j "nesterov"
+    let cgs := steps.map fun (lr, g) => ((⟨⟨lr, mom, damp, wd, nest, ne0 mom, ne0 wd⟩, maxi⟩ : SGDX Float), g)
+    return fListOut (sgdRule.trace ⟨p0, none⟩ cgs)
+  | "adam" =>
+    let b1 ← fOr j "beta1" 0.9
+    let b2 ← fOr j "beta2" 0.999
+    let dec ← bOr j "decoupled"
+    let ams ← bOr j "amsgrad"
+    let cgs := steps.map fun (lr, g) => ((⟨lr, b1, b2, eps, wd, ne0 wd, dec, ams, maxi⟩ : AdamX Float), g)
+    return fListOut (adamRule.trace ⟨p0, 0.0, 0.0, 0.0, 0⟩ cgs)
+  | "adadelta" =>
+    let rho ← fOr j "rho" 0.9
+    let cgs := steps.map fun (lr, g) => ((⟨lr, rho, eps, wd, ne0 wd, maxi⟩ : AdadeltaCfg Float), g)
+    return fListOut (adadeltaRule.trace ⟨p0, 0.0, 0.0⟩ cgs)
+  | "adagrad" =>
+    let lrd ← fOr j "lr_decay" 0.0
+    let iav ← fOr j "initial_accumulator_value" 0.0
+    let cgs := steps.map fun (lr, g) => ((⟨lr, lrd, eps, wd, ne0 wd, maxi⟩ : AdagradCfg Float), g)
+    return fListOut (adagradRule.trace ⟨p0, iav, 0⟩ cgs)
+  | "rmsprop" =>
+    let alpha ← fOr j "alpha" 0.99
+    let mom ← fOr j "momentum" 0.0
+    let cen ← bOr j "centered"
+    let cgs := steps.map fun (lr, g) => ((⟨lr, alpha, eps, wd, ne0 wd, mom, mom > 0.0, cen, maxi⟩ : RMSpropCfg Float), g)
+    return fListOut (rmspropRule.trace ⟨p0, 0.0, 0.0, 0.0⟩ cgs)
+  | "adamax" =>
+    let b1 ← fOr j "beta1" 0.9
+    let b2 ← fOr j "beta2" 0.999
+    let cgs := steps.map fun (lr, g) => ((⟨lr, b1, b2, eps, wd, ne0 wd, maxi⟩ : AdamaxCfg Float), g)
+    return fListOut (adamaxRule.trace ⟨p0, 0.0, 0.0, 0⟩ cgs)
+  | "nadam" =>
+    let b1 ← fOr j "beta1" 0.9
+    let b2 ← fOr j "beta2" 0.999
+    let md ← fOr j "momentum_decay" 0.004
+    let dec ← bOr j "decoupled"
+    let cgs := steps.map fun (lr, g) => ((⟨lr, b1, b2, eps, wd, ne0 wd, dec, md, maxi⟩ : NAdamCfg Float), g)
+    return fListOut (nadamRule.trace ⟨p0, 0.0, 0.0, 1.0, 0⟩ cgs)
+  | _ => throw s!"unknown rule {kind}"
+
 def handle (op : String) (j : Json) : Option (R Json) :=
   match op with
   | "c20.run" => some (Drv.Store.runOps j)
   | "c20.optim" => some (optim j)
   | "c20.auxgrad" => some (auxgrad j)
+  | "c20.rule" => some (rule j)
   | _ => none
 
 end Drv.C20
